@@ -281,12 +281,13 @@ macro_rules! assert_vfs_is_symlink {
             Ok(x) => x,
             _ => panic_msg!("assert_vfs_is_symlink!", "failed to get absolute path", $path),
         };
-        if $vfs.exists(&target) {
-            if !$vfs.is_symlink(&target) {
+        // A dangling link is a symlink too; `exists` may follow links and report it as missing
+        if !$vfs.is_symlink(&target) {
+            if $vfs.exists(&target) {
                 panic_msg!("assert_vfs_is_symlink!", "exists but is not a symlink", &target);
+            } else {
+                panic_msg!("assert_vfs_is_symlink!", "symlink doesn't exist", &target);
             }
-        } else {
-            panic_msg!("assert_vfs_is_symlink!", "symlink doesn't exist", &target);
         }
     };
 }
@@ -307,10 +308,9 @@ macro_rules! assert_vfs_no_symlink {
             Ok(x) => x,
             _ => panic_msg!("assert_vfs_no_symlink!", "failed to get absolute path", $path),
         };
-        if $vfs.exists(&target) {
-            if $vfs.is_symlink(&target) {
-                panic_msg!("assert_vfs_no_symlink!", "exists and is a symlink", &target);
-            }
+        // A dangling link is a symlink too; `exists` may follow links and report it as missing
+        if $vfs.is_symlink(&target) {
+            panic_msg!("assert_vfs_no_symlink!", "exists and is a symlink", &target);
         }
     };
 }
@@ -572,12 +572,13 @@ macro_rules! assert_vfs_remove {
             Ok(x) => x,
             _ => panic_msg!("assert_vfs_remove!", "failed to get absolute path", $path),
         };
-        if $vfs.exists(&target) {
+        // A dangling link is there although `exists`, which may follow links, says it isn't
+        if $vfs.exists(&target) || $vfs.is_symlink(&target) {
             if !$vfs.is_dir(&target) {
                 if $vfs.remove(&target).is_err() {
                     panic_msg!("assert_vfs_remove!", "failed removing file", &target);
                 }
-                if $vfs.exists(&target) {
+                if $vfs.exists(&target) || $vfs.is_symlink(&target) {
                     panic_msg!("assert_vfs_remove!", "file still exists", &target);
                 }
             } else {
@@ -618,7 +619,7 @@ macro_rules! assert_vfs_remove_all {
         if $vfs.remove_all(&target).is_err() {
             panic_msg!("assert_vfs_remove_all!", "failed while removing", &target);
         }
-        if $vfs.exists(&target) {
+        if $vfs.exists(&target) || $vfs.is_symlink(&target) {
             panic_msg!("assert_vfs_remove_all!", "still exists", &target);
         }
     };
